@@ -137,7 +137,7 @@ Proof.
 Qed.
 
 Lemma is_file_has_key0 d k : is_file d k = true -> has_key d k = true.
-Proof. unfold is_file, has_key. destruct (lookup d k) as [[| |]|]; congruence. Qed.
+Proof. unfold is_file, has_key. destruct (lookup d k) as [[| | |]|]; congruence. Qed.
 
 (* the start-up scan lists exactly the blob-hash names that are (links to) regular files *)
 Lemma mem_listed d k : mem k (listed d) = valid_name k && is_file d k.
@@ -151,7 +151,7 @@ Lemma mem_listed_all d k : mem k (listed_all d) = valid_name k && has_key d k.
 Proof. unfold listed_all. apply mem_map_filter_key. Qed.
 
 Lemma is_file_has_key d k : is_file d k = true -> has_key d k = true.
-Proof. unfold is_file, has_key. destruct (lookup d k) as [[| |]|]; congruence. Qed.
+Proof. unfold is_file, has_key. destruct (lookup d k) as [[| | |]|]; congruence. Qed.
 
 (* a blob directory that holds no sub-directories (every entry is a regular file) *)
 Definition files_only (d : disk_t) : Prop := Forall (fun p => exists sz, snd p = EFile sz) d.
@@ -423,7 +423,7 @@ Qed.
 Lemma get_blob_files_only sv d c h len : files_only d -> files_only (fst (fst (get_blob sv d c h len))).
 Proof.
   unfold get_blob. intro F. destruct (lookup c h); [exact F|].
-  destruct (lookup d h) as [[sz| |]|]; try exact F.
+  destruct (lookup d h) as [[sz| | |]|]; try exact F.
   destruct ((len =? 0) || (len =? sz)); [exact F | apply files_only_remove; exact F].
 Qed.
 
@@ -453,7 +453,7 @@ Qed.
 (* ---- daemon_start: what it does to the directory ---- *)
 Lemma get_blob_len0_disk sv d c h : fst (fst (get_blob sv d c h 0)) = d.
 Proof.
-  unfold get_blob. destruct (lookup c h); [reflexivity|]. destruct (lookup d h) as [[sz| |]|]; reflexivity.
+  unfold get_blob. destruct (lookup c h); [reflexivity|]. destruct (lookup d h) as [[sz| | |]|]; reflexivity.
 Qed.
 
 Lemma recover_sd_disk s st :
@@ -469,20 +469,35 @@ Qed.
 Lemma store_recovered_disk s st : disk (store_recovered s st) = disk s.
 Proof. reflexivity. Qed.
 
-Lemma load_stream_disk s st : disk (load_stream s st) = disk s.
+Lemma load_stream_disk s st :
+  disk (load_stream s st) = disk s \/
+  (st_not_json st = true /\ disk (load_stream s st) = remove_key (disk s) (st_sd st)).
 Proof.
   unfold load_stream. pose proof (get_blob_len0_disk (save s) (disk s) (cache s) (st_sd st)) as G.
-  destruct (get_blob (save s) (disk s) (cache s) (st_sd st) 0) as [[d1 e] c1]. cbn [fst] in G. subst. reflexivity.
+  destruct (get_blob (save s) (disk s) (cache s) (st_sd st) 0) as [[d1 e] c1]. cbn [fst] in G. subst.
+  destruct (fst e && snd e) eqn:E1; cbn [andb]; [|left; reflexivity].
+  destruct (st_not_json st) eqn:E2; [right; auto | left; reflexivity].
 Qed.
 
 Lemma fold_disk_pres (P : disk_t -> Prop) (f : state -> stream_t -> state) l :
   (forall s st, P (disk s) -> P (disk (f s st))) -> forall s, P (disk s) -> P (disk (fold_left f l s)).
 Proof. intro H. induction l as [|x l IH]; intros s0 H0; cbn [fold_left]; [exact H0|]. apply IH. apply H. exact H0. Qed.
 
-Lemma daemon_start_disk_pres (P : disk_t -> Prop) :
-  (forall d h sz, P d -> P (write_file d h sz)) -> forall s streams, P (disk s) -> P (disk (daemon_start s streams)).
+Lemma fold_load_disk_pres (P : disk_t -> Prop) (l : list stream_t) :
+  (forall d st, In st l -> st_not_json st = true -> P d -> P (remove_key d (st_sd st))) ->
+  forall s, P (disk s) -> P (disk (fold_left load_stream l s)).
 Proof.
-  intros W s streams H. unfold daemon_start.
+  induction l as [|x l IH]; intros R s0 H0; cbn [fold_left]; [exact H0|].
+  apply IH; [intros d st Hs; apply R; right; exact Hs|].
+  destruct (load_stream_disk s0 x) as [E|[N E]]; rewrite E; [exact H0|]. apply R; [left; reflexivity | exact N | exact H0].
+Qed.
+
+Lemma daemon_start_disk_pres (P : disk_t -> Prop) streams :
+  (forall d h sz, P d -> P (write_file d h sz)) ->
+  (forall d st, In st streams -> st_not_json st = true -> P d -> P (remove_key d (st_sd st))) ->
+  forall s, P (disk s) -> P (disk (daemon_start s streams)).
+Proof.
+  intros W R s H. unfold daemon_start, daemon_start_with.
   set (s0 := restart s). set (rec := filter (needs_recovery s0) streams).
   set (s1 := fold_left recover_sd rec s0). set (s2 := fold_left store_recovered (filter (rows_present s0) rec) s1).
   assert (H1 : P (disk s1)).
@@ -491,11 +506,13 @@ Proof.
   assert (H2 : P (disk s2)).
   { apply fold_disk_pres; [|exact H1]. intros t st Ht. rewrite store_recovered_disk. exact Ht. }
   destruct (ensure_completed _ _ _ _) as [db3 c3].
-  apply fold_disk_pres; [|cbn [disk]; exact H2]. intros t st Ht. rewrite load_stream_disk. exact Ht.
+  apply fold_load_disk_pres; [exact R | cbn [disk]; exact H2].
 Qed.
 
 Lemma daemon_start_files_only s streams : files_only (disk s) -> files_only (disk (daemon_start s streams)).
-Proof. apply daemon_start_disk_pres. intros d h sz. apply files_only_write. Qed.
+Proof.
+  apply daemon_start_disk_pres; [intros d h sz; apply files_only_write | intros d st _ _; apply files_only_remove].
+Qed.
 
 Lemma step_files_only s o : is_ext_dir o = false -> files_only (disk s) -> files_only (disk (fst (step s o))).
 Proof.
@@ -505,6 +522,7 @@ Proof.
     pose proof (get_blob_files_only (save s) (disk s) (cache s) h len F) as G.
     destruct (get_blob (save s) (disk s) (cache s) h len) as [[d1 [kd v]] c1]. cbn [fst snd] in *.
     destruct v; [exact G|]. destruct (kd && is_file d1 h); [exact G|]. destruct (len =? 0); [exact G|].
+    destruct (kd && is_dir d1 h); [exact G|].
     destruct kd; unfold blob_completed, buffer_completed; cbn [fst disk]; [apply files_only_write|]; exact G.
   - (* touch *) destruct (alive s); cbn [negb]; [|exact F]. unfold touch.
     destruct (valid_name h); cbn [negb]; [|exact F].
@@ -515,7 +533,7 @@ Proof.
     pose proof (get_blob_files_only (save s) (disk s) (cache s) h len F) as G.
     destruct (get_blob (save s) (disk s) (cache s) h len) as [[d1 [kd v]] c1]. cbn [fst snd] in *.
     destruct v; [exact G|]. destruct (kd && is_file d1 h); [exact G|]. destruct (len =? 0); [exact G|].
-    cbn [fst disk]. destruct kd; [apply files_only_write|]; exact G.
+    cbn [fst disk]. destruct (kd && (written =? len)); [apply files_only_write|]; exact G.
   - (* publish *) destruct (alive s); cbn [negb]; [|exact F]. unfold publish.
     destruct (negb _); [exact F|]. cbn [fst disk]. apply fold_create_blob_disk. exact F.
   - (* publish_crash *) destruct (alive s); cbn [negb]; [|exact F]. unfold publish_crash.
@@ -528,7 +546,7 @@ Proof.
     pose proof (delete_loop_files_only (sd :: hs) s F) as G.
     destruct (delete_loop s (sd :: hs)) as [s1 ok]. cbn [fst] in G.
     destruct ok; cbn [negb]; exact G.
-  - (* ext_file *) cbn [fst]. destruct (is_dir (disk s) n); [exact F|]. cbn [with_disk disk].
+  - (* ext_file *) cbn [fst]. destruct (blocks_open (disk s) n); [exact F|]. cbn [with_disk disk].
     apply files_only_set. exact F.
   - (* ext_remove *) cbn [fst with_disk disk]. apply files_only_remove. exact F.
   - (* ext_link: only links to regular files are admitted here *)
@@ -657,7 +675,7 @@ Qed.
 Lemma get_blob_NoDup sv d c h len : NoDup (map fst d) -> NoDup (map fst (fst (fst (get_blob sv d c h len)))).
 Proof.
   unfold get_blob. intro F. destruct (lookup c h); [exact F|].
-  destruct (lookup d h) as [[sz| |]|]; try exact F.
+  destruct (lookup d h) as [[sz| | |]|]; try exact F.
   destruct ((len =? 0) || (len =? sz)); [exact F | apply NoDup_remove_key; exact F].
 Qed.
 
@@ -683,10 +701,10 @@ Proof. induction l as [|x l IH]; intros db H; cbn [fold_left]; [exact H|]. apply
 Lemma delete_blob_unique s h : keys_unique s -> keys_unique (delete_blob s h).
 Proof.
   intros [Hd [Hb Hc]]. unfold delete_blob, keys_unique.
-  destruct (lookup (cache s) h) as [e|]; cbn [disk db completed]; (split; [|split]); try exact Hb; try exact Hc;
-    try (destruct (is_file (disk s) h); [apply NoDup_remove_key|]; exact Hd).
+  assert (Hr : NoDup (set_remove h (completed s))) by (unfold set_remove; apply NoDup_filter; exact Hc).
+  destruct (lookup (cache s) h) as [e|]; cbn [disk db completed]; (split; [|split]); try exact Hb; try exact Hr.
   - destruct (fst e && is_file (disk s) h); [apply NoDup_remove_key|]; exact Hd.
-  - unfold set_remove. apply NoDup_filter. exact Hc.
+  - destruct (is_file (disk s) h); [apply NoDup_remove_key|]; exact Hd.
 Qed.
 
 Lemma delete_loop_unique hs : forall s, keys_unique s -> keys_unique (fst (delete_loop s hs)).
@@ -727,7 +745,11 @@ Proof.
   intros [Hd [Hb Hc]]. unfold load_stream.
   pose proof (get_blob_len0_disk (save s) (disk s) (cache s) (st_sd st)) as G.
   destruct (get_blob (save s) (disk s) (cache s) (st_sd st) 0) as [[d1 e] c1]. cbn [fst] in G. subst.
-  split; [|split]; assumption.
+  destruct (fst e && snd e && st_not_json st).
+  - split; [apply NoDup_remove_key; exact Hd|]. split; cbn [db completed].
+    + unfold db_delete. apply NoDup_remove_key. exact Hb.
+    + unfold set_remove. apply NoDup_filter. exact Hc.
+  - split; [|split]; assumption.
 Qed.
 
 Lemma fold_keys_unique (f : state -> stream_t -> state) l :
@@ -736,7 +758,7 @@ Proof. intro H. induction l as [|x l IH]; intros s0 H0; cbn [fold_left]; [exact 
 
 Lemma daemon_start_keys_unique s streams : keys_unique s -> keys_unique (daemon_start s streams).
 Proof.
-  intro K. unfold daemon_start.
+  intro K. unfold daemon_start, daemon_start_with.
   set (s0 := restart s). set (rec := filter (needs_recovery s0) streams).
   set (s1 := fold_left recover_sd rec s0). set (s2 := fold_left store_recovered (filter (rows_present s0) rec) s1).
   assert (K2 : keys_unique s2).
@@ -757,6 +779,7 @@ Proof.
     destruct (get_blob (save s) (disk s) (cache s) h len) as [[d1 [kd v]] c1]. cbn [fst snd] in *.
     assert (K1 : forall c a sv mk, keys_unique (mkState d1 (db s) (completed s) c a sv mk)) by (intros; split; [|split]; assumption).
     destruct v; [apply K1|]. destruct (kd && is_file d1 h); [apply K1|]. destruct (len =? 0); [apply K1|].
+    destruct (kd && is_dir d1 h); [apply K1|].
     destruct kd; unfold blob_completed, buffer_completed, keys_unique; cbn [fst disk db completed].
     + split; [apply NoDup_write_file; exact G|]. split; [apply NoDup_db_add; exact Hb | apply NoDup_set_add; exact Hc].
     + split; [exact G|]. split; [apply NoDup_db_add; exact Hb | exact Hc].
@@ -772,7 +795,7 @@ Proof.
     assert (K1 : forall c a sv mk, keys_unique (mkState d1 (db s) (completed s) c a sv mk)) by (intros; split; [|split]; assumption).
     destruct v; [apply K1|]. destruct (kd && is_file d1 h); [apply K1|]. destruct (len =? 0); [apply K1|].
     unfold keys_unique. cbn [fst disk db completed].
-    split; [destruct kd; [apply NoDup_write_file|]; exact G|]. split; [exact Hb | constructor].
+    split; [destruct (kd && (written =? len)); [apply NoDup_write_file|]; exact G|]. split; [exact Hb | constructor].
   - destruct (alive s); cbn [negb]; [|exact K]. unfold publish.
     destruct (negb _); [exact K|]. cbn [fst].
     pose proof (fold_create_blob_unique (hs ++ [sd]) s K) as [Gd [Gb Gc]].
@@ -793,12 +816,14 @@ Proof.
     destruct ok; cbn [negb]; [|exact G].
     destruct G as [Gd [Gb Gc]]. unfold keys_unique. cbn [fst disk db completed].
     split; [exact Gd|]. split; [apply NoDup_db_delete_all; exact Gb | exact Gc].
-  - cbn [fst]. destruct (is_dir (disk s) n); [exact K|]. unfold keys_unique, with_disk. cbn [disk db completed].
+  - cbn [fst]. destruct (blocks_open (disk s) n); [exact K|]. unfold keys_unique, with_disk. cbn [disk db completed].
     split; [apply NoDup_set_key; exact Hd | split; assumption].
   - cbn [fst]. destruct (lookup (disk s) n); [exact K|]. unfold keys_unique, with_disk. cbn [disk db completed].
     split; [apply NoDup_set_key; exact Hd | split; assumption].
   - cbn [fst]. unfold keys_unique, with_disk. cbn [disk db completed].
     split; [apply NoDup_remove_key; exact Hd | split; assumption].
+  - cbn [fst]. destruct (lookup (disk s) n); [exact K|]. unfold keys_unique, with_disk. cbn [disk db completed].
+    split; [apply NoDup_set_key; exact Hd | split; assumption].
   - cbn [fst]. destruct (lookup (disk s) n); [exact K|]. unfold keys_unique, with_disk. cbn [disk db completed].
     split; [apply NoDup_set_key; exact Hd | split; assumption].
   - destruct st; cbn [fst]; unfold keys_unique, with_db; cbn [disk db completed].
@@ -854,7 +879,7 @@ Lemma get_blob_spec sv d c h len d1 e c1 : get_blob sv d c h len = (d1, e, c1) -
 Proof.
   unfold get_blob. destruct (lookup c h) as [e0|] eqn:L.
   - intro H. inversion H. subst. repeat split; auto. discriminate.
-  - destruct (lookup d h) as [[sz| |]|] eqn:D.
+  - destruct (lookup d h) as [[sz| | |]|] eqn:D.
     + destruct ((len =? 0) || (len =? sz)); intro H; inversion H; subst; clear H.
       * split; [auto|]. split; [rewrite lookup_set_key, bytes_eqb_refl; reflexivity|].
         split; [intros k Hk; rewrite lookup_set_key, Hk; reflexivity|]. split; [discriminate | auto].
@@ -862,6 +887,10 @@ Proof.
         { intros k. rewrite is_file_remove_key. destruct (bytes_eqb h k); [discriminate | auto]. }
         split; [rewrite lookup_set_key, bytes_eqb_refl; reflexivity|].
         split; [intros k Hk; rewrite lookup_set_key, Hk; reflexivity|]. split; [discriminate | auto].
+    + intro H; inversion H; subst; clear H.
+      split; [auto|]. split; [rewrite lookup_set_key, bytes_eqb_refl; reflexivity|].
+      split; [intros k Hk; rewrite lookup_set_key, Hk; reflexivity|].
+      split; [|auto]. intros _ _. unfold is_file. rewrite D. reflexivity.
     + intro H; inversion H; subst; clear H.
       split; [auto|]. split; [rewrite lookup_set_key, bytes_eqb_refl; reflexivity|].
       split; [intros k Hk; rewrite lookup_set_key, Hk; reflexivity|].
@@ -998,6 +1027,7 @@ Proof.
     assert (I1 : forall a sv mk, files_recorded (mkState d1 (db s) (completed s) c1 a sv mk)).
     { intros a sv mk. split; [exact G|]. split; [|exact J1]. cbn [disk db]. intros k Vk K. apply R; [exact Vk | apply M; exact K]. }
     destruct v; [apply I1|]. destruct (kd && is_file d1 h) eqn:Bz; [apply I1|]. destruct (len =? 0); [apply I1|].
+    destruct (kd && is_dir d1 h); [apply I1|].
     destruct kd; unfold blob_completed, buffer_completed, files_recorded, buffers_fileless; cbn [fst disk db cache].
     + split; [apply files_only_write; exact G|]. split.
       * intros k Vk. rewrite is_file_write_file by exact G.
@@ -1147,7 +1177,7 @@ Lemma get_blob_len0_spec sv d c h e c1 : get_blob sv d c h 0 = (d, e, c1) ->
 Proof.
   unfold get_blob. destruct (lookup c h) as [e0|] eqn:L.
   - intro H. inversion H. subst. auto.
-  - unfold is_file. destruct (lookup d h) as [[sz| |]|]; cbn [N.eqb orb]; intro H; inversion H; subst; clear H;
+  - unfold is_file. destruct (lookup d h) as [[sz| | |]|]; cbn [N.eqb orb]; intro H; inversion H; subst; clear H;
       (split; [rewrite lookup_set_key, bytes_eqb_refl; reflexivity|]);
       (split; [intros k Hk; rewrite lookup_set_key, Hk; reflexivity|]); right; split; auto; cbn [snd]; discriminate.
 Qed.
@@ -1302,22 +1332,27 @@ Section DaemonStart.
         apply bytes_eqb_eq in E. subst. rewrite F, andb_false_r. reflexivity.
   Qed.
 
-  Lemma load_stream_same s st :
-    disk (load_stream s st) = disk s /\ db (load_stream s st) = db s /\ completed (load_stream s st) = completed s /\
-    marked (load_stream s st) = marked s.
+  Definition inv3 (t : state) : Prop :=
+    (forall h, In h (completed t) -> is_file (disk t) h = true) /\
+    (forall h, valid_name h = true -> is_file (disk t) h = true -> db_status (db t) h = Some Finished) /\
+    (forall h, db_status (db t) h = Some Finished -> is_file (disk t) h = true).
+
+  (* loading a stream keeps the three clauses: a damaged (non-JSON) sd blob loses file, row and report together *)
+  Lemma load_stream_inv3 t st : inv3 t -> inv3 (load_stream t st).
   Proof.
-    unfold load_stream. pose proof (get_blob_len0_disk (save s) (disk s) (cache s) (st_sd st)) as G.
-    destruct (get_blob (save s) (disk s) (cache s) (st_sd st) 0) as [[d1 e] c1]. cbn [fst] in G. subst. auto.
+    intros [IC [IFn IFl]]. unfold load_stream.
+    pose proof (get_blob_len0_disk (save t) (disk t) (cache t) (st_sd st)) as G.
+    destruct (get_blob (save t) (disk t) (cache t) (st_sd st) 0) as [[d1 e] c1]. cbn [fst] in G. subst d1.
+    destruct (fst e && snd e && st_not_json st); unfold inv3; cbn [disk db completed]; [|auto].
+    split; [|split].
+    - intros h Hh. apply In_set_remove in Hh as [Hh Ne]. rewrite is_file_remove_key.
+      destruct (bytes_eqb (st_sd st) h) eqn:B; [apply bytes_eqb_eq in B; congruence | apply IC; exact Hh].
+    - intros h Vh. rewrite is_file_remove_key, status_delete. destruct (bytes_eqb (st_sd st) h); [discriminate | apply IFn; exact Vh].
+    - intros h. rewrite is_file_remove_key, status_delete. destruct (bytes_eqb (st_sd st) h); [discriminate | apply IFl].
   Qed.
 
-  Lemma fold_load_same l : forall s,
-    disk (fold_left load_stream l s) = disk s /\ db (fold_left load_stream l s) = db s /\
-    completed (fold_left load_stream l s) = completed s /\ marked (fold_left load_stream l s) = marked s.
-  Proof.
-    induction l as [|x l IH]; intro s; cbn [fold_left]; [auto|].
-    destruct (IH (load_stream s x)) as [A [B [C D]]]. destruct (load_stream_same s x) as [A' [B' [C' D']]].
-    rewrite A, B, C, D. auto.
-  Qed.
+  Lemma fold_load_inv3 l : forall t, inv3 t -> inv3 (fold_left load_stream l t).
+  Proof. induction l as [|x l IH]; intros t H; cbn [fold_left]; [exact H|]. apply IH. apply load_stream_inv3. exact H. Qed.
 
   Lemma restart_good s : no_dir_under_sd s -> good (restart s).
   Proof.
@@ -1335,7 +1370,7 @@ Section DaemonStart.
     (forall h, valid_name h = true -> is_file (disk t) h = true -> db_status (db t) h = Some Finished) /\
     (forall h, db_status (db t) h = Some Finished -> is_file (disk t) h = true).
   Proof.
-    intros ND t. subst t. unfold daemon_start.
+    intros ND t. subst t. unfold daemon_start, daemon_start_with.
     set (s0 := restart s). set (rec := filter (needs_recovery s0) L).
     set (rst := filter (rows_present s0) rec).
     set (s1 := fold_left recover_sd rec s0). set (s2 := fold_left store_recovered rst s1).
@@ -1348,8 +1383,7 @@ Section DaemonStart.
       by (rewrite C2, D2; exact J1).
     pose proof (fun k => ensure_status_gen (disk s2) (flat_map st_names rst) (db s2) (cache s2) k J2) as E.
     destruct (ensure_completed (disk s2) (flat_map st_names rst) (db s2) (cache s2)) as [db3 c3]. cbn [fst snd] in E.
-    destruct (fold_load_same L (mkState (disk s2) db3 (completed s2) c3 (alive s2) (save s2) (marked s2))) as [Dt [Bt [Ct _]]].
-    rewrite Dt, Bt, Ct. cbn [disk db completed]. rewrite D2, K2.
+    apply fold_load_inv3. unfold inv3. cbn [disk db completed]. rewrite D2, K2.
     split; [exact IC1|]. split.
     - intros h Vh Hh. destruct (E h) as [St _]. rewrite St, D2, Hh.
       destruct (mem h (flat_map st_names rst)) eqn:M; [reflexivity|]. cbn [andb].
@@ -1361,10 +1395,14 @@ Section DaemonStart.
   Qed.
 End DaemonStart.
 
-Lemma daemon_start_disk_grows s L h : is_file (disk s) h = true -> is_file (disk (daemon_start s L)) h = true.
+(* the daemon start removes no file except the sd blob of a stream whose sd blob is not JSON *)
+Lemma daemon_start_disk_grows s L h : (forall st, In st L -> st_not_json st = true -> st_sd st <> h) ->
+  is_file (disk s) h = true -> is_file (disk (daemon_start s L)) h = true.
 Proof.
-  revert h. apply (daemon_start_disk_pres (fun d => forall h, is_file (disk s) h = true -> is_file d h = true)); [|auto].
-  intros d x sz H h Hh. rewrite is_file_write_gen. destruct (is_dir d x); [auto|]. destruct (bytes_eqb x h); auto.
+  intro NJ. apply (daemon_start_disk_pres (fun d => is_file d h = true)).
+  - intros d x sz H. rewrite is_file_write_gen. destruct (is_dir d x); [auto|]. destruct (bytes_eqb x h); auto.
+  - intros d st Hs Hn H. rewrite is_file_remove_key. destruct (bytes_eqb (st_sd st) h) eqn:B; [|exact H].
+    apply bytes_eqb_eq in B. exfalso. apply (NJ st Hs Hn B).
 Qed.
 
 (* a further start (of the blob manager alone or of the whole daemon) after a daemon start reports exactly the files *)
@@ -1382,3 +1420,96 @@ Lemma daemon_start_announced_have_files s L head h :
   (forall st, In st L -> is_dir (disk s) (st_sd st) = false) ->
   In h (announce_list head (daemon_start s L)) -> is_file (disk (daemon_start s L)) h = true.
 Proof. intros ND H. destruct (daemon_start_ok L s ND) as [_ [_ IF]]. apply IF. apply (announce_finished head). exact H. Qed.
+
+(* ---------- between restarts, since 1ed13b5: what is reported as completed keeps its file ----------
+   API operations whose blob lengths are the ones the blobs really have never take a completed blob's file away
+   without un-reporting it.  (OTouch -- a download that is started with a length different from the file's and never
+   finished -- deletes the file through BlobFile.__init__ and is left out.) *)
+Definition is_api_op_strict (o : op) : bool :=
+  match o with OTouch _ _ => false | _ => is_api_op o end.
+
+Definition completed_backed (s : state) : Prop :=
+  files_recorded s /\ forall k, In k (completed s) -> is_file (disk s) k = true.
+
+Lemma delete_loop_completed hs : forall s s1 ok, buffers_fileless s -> delete_loop s hs = (s1, ok) ->
+  (forall k, In k (completed s) -> is_file (disk s) k = true) ->
+  (forall k, In k (completed s1) -> is_file (disk s1) k = true).
+Proof.
+  induction hs as [|h r IH]; intros s s1 ok J H C; cbn [delete_loop] in H.
+  - inversion H. subst. exact C.
+  - destruct (valid_name h); [|inversion H; subst; exact C].
+    apply (IH (delete_blob s h) s1 ok); [apply delete_blob_fileless; exact J | exact H|].
+    intros k Hk. rewrite delete_blob_is_file by exact J.
+    assert (Hk' : In k (set_remove h (completed s))) by (unfold delete_blob in Hk; destruct (lookup (cache s) h); exact Hk).
+    apply In_set_remove in Hk' as [Hk' Ne]. destruct (bytes_eqb h k) eqn:B; [apply bytes_eqb_eq in B; congruence | apply C; exact Hk'].
+Qed.
+
+Lemma step_completed_backed s o : is_api_op_strict o = true -> completed_backed s -> completed_backed (fst (step s o)).
+Proof.
+  intros A [I C]. assert (A' : is_api_op o = true) by (destruct o; try discriminate; reflexivity).
+  split; [apply step_files_recorded; assumption|].
+  pose proof I as [F [R J]]. destruct o; try discriminate; cbn [step].
+  - (* complete *) destruct (alive s); cbn [negb]; [|exact C]. unfold complete.
+    destruct (valid_name h); cbn [negb]; [|exact C]. unfold get_blob.
+    destruct (lookup (cache s) h) as [[kd v]|] eqn:Lc; cbn [fst snd].
+    + destruct v; [exact C|]. destruct (kd && is_file (disk s) h); [exact C|]. destruct (len =? 0); [exact C|].
+      destruct (kd && is_dir (disk s) h); [exact C|].
+      destruct kd; unfold blob_completed, buffer_completed; cbn [fst disk completed]; [|exact C].
+      intros k Hk. rewrite is_file_write_file by exact F. apply In_set_add in Hk as [->|Hk].
+      * rewrite bytes_eqb_refl. reflexivity.
+      * destruct (bytes_eqb h k); [reflexivity | apply C; exact Hk].
+    + destruct (lookup (disk s) h) as [[sz| | |]|] eqn:Ld.
+      * destruct ((len =? 0) || (len =? sz)) eqn:Lm; cbn [fst snd]; [exact C|].
+        apply orb_false_iff in Lm as [L0 _].
+        assert (Nf : is_file (remove_key (disk s) h) h = false) by (rewrite is_file_remove_key, bytes_eqb_refl; reflexivity).
+        rewrite Nf, L0. cbn [andb].
+        assert (Nd : is_dir (remove_key (disk s) h) h = false)
+          by (unfold is_dir; rewrite lookup_remove_key, bytes_eqb_refl; reflexivity).
+        rewrite Nd. unfold blob_completed. cbn [fst disk completed].
+        intros k Hk. rewrite is_file_write_file by (apply files_only_remove; exact F). apply In_set_add in Hk as [->|Hk].
+        -- rewrite bytes_eqb_refl. reflexivity.
+        -- rewrite is_file_remove_key. destruct (bytes_eqb h k); [reflexivity | apply C; exact Hk].
+      * exfalso. destruct (files_only_lookup _ _ _ F Ld) as [sz E]. discriminate.
+      * exfalso. destruct (files_only_lookup _ _ _ F Ld) as [sz E]. discriminate.
+      * exfalso. destruct (files_only_lookup _ _ _ F Ld) as [sz E]. discriminate.
+      * cbn [fst snd]. assert (Nf : is_file (disk s) h = false) by (unfold is_file; rewrite Ld; reflexivity).
+        rewrite Nf, andb_false_r. destruct (len =? 0); [exact C|].
+        assert (Nd : is_dir (disk s) h = false) by (unfold is_dir; rewrite Ld; reflexivity). rewrite Nd, andb_false_r.
+        destruct (save s); unfold blob_completed, buffer_completed; cbn [fst disk completed]; [|exact C].
+        intros k Hk. rewrite is_file_write_file by exact F. apply In_set_add in Hk as [->|Hk].
+        -- rewrite bytes_eqb_refl. reflexivity.
+        -- destruct (bytes_eqb h k); [reflexivity | apply C; exact Hk].
+  - (* publish *) destruct (alive s); cbn [negb]; [|exact C]. unfold publish.
+    destruct (forallb _ _ && _); cbn [negb]; [|exact C].
+    pose proof (fold_create_blob_spec (hs ++ [sd]) s F) as [F1 [C1 [D1 B1]]]. cbn [fst disk completed].
+    assert (Cm : forall l s0, (forall k, In k (completed (fold_left create_blob l s0)) -> In k (completed s0) \/ mem k (map fst l) = true)).
+    { induction l as [|x l IH]; intros s0 k Hk; cbn [fold_left map] in *; [left; exact Hk|].
+      apply IH in Hk as [Hk|Hk].
+      - unfold create_blob, blob_completed in Hk. cbn [completed] in Hk. apply In_set_add in Hk as [->|Hk].
+        + right. cbn [mem existsb]. rewrite bytes_eqb_refl. reflexivity.
+        + left. exact Hk.
+      - right. cbn [mem existsb]. fold (mem k (map fst l)). rewrite Hk. apply orb_true_r. }
+    intros k Hk. rewrite D1. apply Cm in Hk as [Hk|Hk]; [rewrite (C k Hk); apply orb_true_r | rewrite Hk; reflexivity].
+  - (* delete *) destruct (alive s); cbn [negb]; [|exact C]. unfold delete_blobs.
+    pose proof (delete_loop_completed hs s) as S.
+    destruct (delete_loop s hs) as [s1 ok]. specialize (S s1 ok J eq_refl C).
+    destruct ok; cbn [negb]; [|exact S]. destruct from_db; exact S.
+  - (* stream_delete *) destruct (alive s); cbn [negb]; [|exact C]. unfold stream_delete.
+    pose proof (delete_loop_completed (sd :: hs) s) as S.
+    destruct (delete_loop s (sd :: hs)) as [s1 ok]. specialize (S s1 ok J eq_refl C).
+    destruct ok; cbn [negb]; exact S.
+  - (* restart *) cbn [fst]. intros k Hk. apply completed_have_files in Hk as [_ Hk]. exact Hk.
+  - (* restart with save *) cbn [fst]. unfold restart_with. intros k Hk. apply completed_have_files in Hk as [_ Hk]. exact Hk.
+Qed.
+
+Lemma run_completed_backed ops : forall s, forallb is_api_op_strict ops = true ->
+  completed_backed s -> completed_backed (run s ops).
+Proof.
+  induction ops as [|o r IH]; intros s H I; cbn [run]; [exact I|].
+  cbn [forallb] in H. apply andb_true_iff in H as [H1 H2]. apply IH; [exact H2|]. apply step_completed_backed; assumption.
+Qed.
+
+Lemma restart_completed_backed s : files_only (disk s) -> completed_backed (restart s).
+Proof.
+  intro F. split; [apply restart_files_recorded; exact F|]. intros k Hk. apply completed_have_files in Hk as [_ Hk]. exact Hk.
+Qed.
